@@ -143,7 +143,17 @@ def drangeBT (c : Cal) (tbl : List Int) (x y : Int) (b : Int) : Res (List Int) :
 /-! The calendar's own operations use its own table `c.bdays` (built lazily, once, by `_populate`).  The `…T`
 forms exist so that the driver can compute the table once per calendar instead of once per request. -/
 
+/-- `Calendar.clock(date)` (_drange.py:615-618), read literally: `self.dt2int.get(date, self.dt2int[self.adjust(date)])`.
+Python evaluates the default argument FIRST (a `KeyError` when `adjust(date)` is not in the table, even if `date` is), then
+the `.get`: the position of `date` itself when it is a table key, otherwise the default. -/
+def clockT (c : Cal) (tbl : List Int) (t : Int) : Res Nat := do
+  let d ← clockOfT tbl (c.adjust c.adj t)
+  match idxIn t tbl with
+  | some i => pure i
+  | none => pure d
+
 def add (c : Cal) (a : Adj) (t n : Int) : Res Int := c.addT c.bdays a t n
+def clock (c : Cal) (t : Int) : Res Nat := c.clockT c.bdays t
 def bdaysBetween (c : Cal) (a : Adj) (x y : Int) : Res Int := c.bdaysBetweenT c.bdays a x y
 def drangeB (c : Cal) (x y : Int) (b : Int) : Res (List Int) := c.drangeBT c.bdays x y b
 
